@@ -11,7 +11,7 @@ TSc == {"s1", "s2"}
 TLi == {"l1", "l2"}
 TSV == {"a", "b"}
 TEL == {"x", "y", "z"}
-TKnown == {"c10_emptied_list_not_cleared", "c10_edits_during_save_lost", "c11_default_marker"}
+TKnown == {"c10_emptied_list_not_cleared", "c10_edits_during_save_lost"}
 VARIABLES tid, l
 ASSUME TLCSet(2, [t \in 1..Len(Traces) |-> 0])
 ASSUME TLCSet(5, [t \in 1..Len(Traces) |-> {}])
@@ -33,8 +33,9 @@ ObsOK(o) ==
        /\ o.pending = (pend' # <<>>)
   /\ ~o.exc
 
-PropsOK == PendingExact' /\ AfterAck' /\ Tracked'
+PropsOK == PendingExact' /\ AfterAck' /\ ViewIsTor' /\ Tracked'
 
+Pairs(rs) == [i \in 1..Len(rs) |-> <<rs[i].o, rs[i].v>>]
 Step(e) ==
   CASE e.a = "Attach"      -> Attach(e.store)
     [] e.a = "Assign"      -> Assign(e.o, e.v)
@@ -42,7 +43,8 @@ Step(e) ==
     [] e.a = "SaveSend"    -> SaveSend
     [] e.a = "SaveAck"     -> SaveAck
     [] e.a = "SaveReject"  -> SaveReject
-    [] e.a = "ConfChanged" -> ConfChanged(e.o, e.v)
+    [] e.a = "OtherChange" -> OtherChange(Pairs(e.chs))
+    [] e.a = "Deliver"     -> Deliver /\ Pairs(e.chs) = Head(evq)
     [] OTHER -> FALSE
 
 TInit == Init /\ tid \in 1..Len(Traces) /\ l = 1
